@@ -477,6 +477,16 @@ func (kcp *KCP) update_ack(rtt int32) {
 
 // shrink_buf advances snd_una to the oldest unacknowledged segment in snd_buf.
 func (kcp *KCP) shrink_buf() {
+	// segments acknowledged one by one (parse_ack only marks them) leave the buffer as soon
+	// as they are at its head: otherwise snd_una could stay behind for ever when the peer
+	// has nothing left to send, and the window would never re-open
+	for {
+		seg, ok := kcp.snd_buf.Peek()
+		if !ok || seg.acked == 0 {
+			break
+		}
+		kcp.snd_buf.Pop()
+	}
 	if seg, ok := kcp.snd_buf.Peek(); ok {
 		kcp.snd_una = seg.sn
 	} else {
@@ -652,6 +662,7 @@ func (kcp *KCP) Input(data []byte, pktType PacketType, ackNoDelay bool) int {
 		case IKCP_CMD_ACK:
 			kcp.debugLog(IKCP_LOG_IN_ACK, "conv", conv, "sn", sn, "una", una, "ts", ts, "rto", kcp.rx_rto)
 			kcp.parse_ack(sn)
+			kcp.shrink_buf()
 			flushSegments |= kcp.parse_fastack(sn, ts)
 			updateRTT |= 1
 			latest = ts
